@@ -162,14 +162,14 @@ func (s *session) hook(ev string, obj, ctx, arg any) {
 		}
 		if s.doGate {
 			s.mu.Lock()
-			deadline := time.Now().Add(3 * time.Second)
+			deadline := time.Now().Add(20 * time.Second)
 			for s.gateErr == "" {
 				if s.pos >= len(s.sched) {
 					break
 				}
 				// the previous operation is complete when its under-lock hook has fired; if the
 				// (possibly modified) code never reaches that hook, give it a moment and go on
-				prevDone := s.inflight == 0 || time.Since(s.inflightAt) > 5*time.Millisecond
+				prevDone := s.inflight == 0 || time.Since(s.inflightAt) > 400*time.Millisecond
 				if s.inflight != 0 && prevDone {
 					s.gateLoose = true
 				}
